@@ -412,6 +412,33 @@ def typelib_case(case):
                         viol.append(('by-error-domain:%s' % tag, 'g_typelib_get_dir_entry_by_error_domain(%r) -> entry %s (%r), expected %r' % (probe, g[2], g[3], exp), replay))
                     if g[4] != exp[1]:
                         viol.append(('find-by-error-domain:%s' % tag, 'g_irepository_find_by_error_domain(%r) -> %r, expected %r' % (probe, g[4], exp[1]), replay))
+        if n <= 3000 and 'index' in outs:
+            # histories of the repository-level GType lookup: every GType probe is looked up once before the namespace is
+            # loaded (nothing may be found, and the miss must not stick), the namespace is then loaded lazily or not
+            for hist in ('e', 'le'):
+                rc, so, se = csan.run([st['driver'], 'typelib', d1, 'Lk', '1.0', pp, hist], info, timeout=900)
+                for sig, text in csan.sanitizer_reports(se):
+                    viol.append((sig, 'sanitizer report during lookups (history %s, n=%d): %s' % (hist, n, text[:600]), replay))
+                lines = so.split('\n')
+                xs = [l.split('\t') for l in lines[1:] if l.startswith('X\t')]
+                got = [l.split('\t') for l in lines[1:] if l and not l.startswith('X\t')]
+                if rc != 0 or len(got) != len(P):
+                    if not csan.sanitizer_reports(se):
+                        viol.append(('lookup-driver-failed', 'history %s: exit %s, %d answers %s' % (hist, rc, len(got), se[-300:]), replay))
+                    continue
+                hits['history:' + ('lazy-load' if 'l' in hist else 'load') + '-after-early-miss'] += 1
+                for x in xs:
+                    if x[2] != '-':
+                        viol.append(('find-by-gtype:before-load', 'g_irepository_find_by_gtype(%r) found %r before the namespace was loaded' % (x[1], x[2]), replay))
+                for (k, probe), g in zip(P, got):
+                    if k == 'G':
+                        exp = by_gtype.get(probe, (-1, '-'))
+                        hits['gtype_probe_after_early_miss'] += 1
+                        if g[4] != exp[1]:
+                            viol.append(('find-by-gtype:after-early-miss:' + ('lazy' if 'l' in hist else 'loaded'),
+                                         'g_irepository_find_by_gtype(%r) -> %r after the namespace was loaded%s (it had been looked up, and missed, before); the '
+                                         'typelib-level lookup finds %r' % (probe, g[4], ' lazily' if 'l' in hist else '', exp[1]), replay))
+                            break
         if n > 3000:
             # with the index every single member is looked up (the linear scan is quadratic, it gets the sample above)
             pa = os.path.join(d, 'allnames')
@@ -512,6 +539,7 @@ def run(args):
     chk.require(h['typelibs_compared'] > 0, 'no typelib looked up with and without index')
     chk.require(h['variant:index:hashed'] > 0, 'no compiled typelib carried a directory index')
     chk.require(h['variant:linear:linear-scan'] > 0, 'linear fallback never exercised')
+    chk.require(h['gtype_probe_after_early_miss'] > 0, 'no GType lookup history with an early miss')
     for k in ('name_probe_present', 'name_probe_absent', 'gtype_probe_present', 'gtype_probe_absent', 'domain_probe_present',
               'domain_probe_absent', 'prefix_match', 'prefix_nomatch'):
         chk.require(h[k] > 0, 'no %s' % k)
